@@ -11,6 +11,7 @@
   Helper lemmas: Echse/Lemmas/Daemon*.lean, DaemonQueue*.lean.
 -/
 import Echse.Lemmas.DaemonQueue2
+import Echse.Lemmas.Conn
 namespace C11
 open Echse.Daemon
 
@@ -313,5 +314,62 @@ example : ¬ Fresh (run { me := 0 } [.req notAUid [.sched "x" (some 1001) 63 0 [
     obtain ⟨f, hfm, _⟩ := hB t (by rw [hl]; exact List.mem_cons_self)
     rw [hfe] at hfm
     cases hfm
+
+/-! ### 6. connection slots (make_conn / free_conn) -/
+
+section ConnSlots
+open Echse.Conn
+
+/-- the slot `make_conn` hands out was free, is the lowest free one, is marked in use, and nothing else changes -/
+theorem conn_slot_spec (free i free' : Nat) (h : makeConn free = (some i, free')) :
+    i < 64 ∧ free.testBit i = true ∧ (∀ j, j < i → free.testBit j = false) ∧ free'.testBit i = false ∧
+    ∀ j, j ≠ i → free'.testBit j = free.testBit j :=
+  makeConn_some free i free' h
+
+/-- a client is turned away only when all 64 slots are in use -/
+theorem conn_none_iff (free : Nat) : (makeConn free).1 = none ↔ ∀ j, j < 64 → free.testBit j = false :=
+  makeConn_none_iff free
+
+/-- … and then the map is left as it was -/
+theorem conn_none_map (free : Nat) (h : (makeConn free).1 = none) : (makeConn free).2 = free :=
+  makeConn_none_snd free h
+
+/-- `free_conn` toggles the bit of the slot and nothing else -/
+theorem free_conn_spec (free i j : Nat) (hi : i < 64) :
+    (freeConn free i).testBit j = if j = i then !free.testBit i else free.testBit j :=
+  freeConn_testBit free i j hi
+
+/-- … and refuses slots out of range -/
+theorem free_conn_out_of_range (free i : Nat) (hi : i ≥ 64) : freeConn free i = free :=
+  freeConn_out_of_range free i hi
+
+/-- over any history of connects and hang-ups (`crun`, Echse/Lemmas/Conn.lean): no two live connections ever share
+a slot, the slots are in range, and the map is exactly the complement of the live set -/
+theorem slots_distinct (evs : List CEv) :
+    (crun evs).live.Nodup ∧ (∀ i ∈ (crun evs).live, i < 64) ∧
+    (∀ j, j < 64 → ((crun evs).free.testBit j = true ↔ j ∉ (crun evs).live)) :=
+  CInv_crun evs
+
+/-- a client is turned away exactly when 64 connections are alive -/
+theorem turned_away_only_when_full (evs : List CEv) :
+    (makeConn (crun evs).free).1 = none ↔ (crun evs).live.length = 64 :=
+  CInv_full_iff (crun evs) (CInv_crun evs)
+
+/-- the first client gets slot 0 -/
+example : (makeConn allFree).1 = some 0 := by decide
+
+/-- with the 32 lower slots taken the next slot is 32 (the C code used to hand out slot 0 again), and then 33 -/
+example : (makeConn (2^64 - 2^32)).1 = some 32 ∧ (makeConn (2^64 - 2^32)).2 = 2^64 - 2^33 ∧
+    (makeConn (2^64 - 2^33)).1 = some 33 := by decide
+
+/-- 32 connects in a row take slots 0 … 31, the 33rd takes 32 -/
+example : (crun (List.replicate 33 .connect)).live.head? = some 32 ∧
+    (crun (List.replicate 33 .connect)).live.length = 33 := by decide +kernel
+
+/-- with all 64 taken the 65th client is turned away; after slot 40 hangs up it is handed out again -/
+example : (crun (List.replicate 65 .connect)).live.length = 64 ∧
+    (crun (List.replicate 65 .connect ++ [.hangup 40, .connect])).live.head? = some 40 := by decide +kernel
+
+end ConnSlots
 
 end C11
